@@ -193,7 +193,7 @@ def run_sig(params):
     special = classify(params)
     for raises in (0, 1):
         f, src = build(params, raises)
-        pnames = [p[1] for p in params if p[1] != "self"]
+        pnames = [p[1] for p in params]
         option_sets = [("bare", {}), ("action_type", {"action_type": "custom:type"}), ("no_result", {"include_result": False})]
         for r in range(0, len(pnames) + 1):
             for sub in itertools.combinations(pnames, r):
@@ -224,6 +224,8 @@ def run_sig(params):
                 ctx = {"src": src, "opts": opts, "args": args, "kwargs": kwargs}
                 if want[0] != got[0]:
                     sig = "outcome-differs:%s-vs-%s" % (want[0], got[0].split(":")[0])
+                    if "self" in opts.get("include_args", ()):
+                        sig += ":include_args-names-self"
                     if want[0] == "TypeError" and got[0] in ("ret", "body") and _posonly_by_keyword(params, kwargs):
                         sig = "positional-only:accepted-by-keyword"
                     elif want[0] in ("ret", "body") and got[0] == "TypeError" and _posonly_by_keyword(params, kwargs):
@@ -259,7 +261,7 @@ def run_sig(params):
                     pass  # bind() rejects some calls Python accepts (positional-only name reused in **kwargs)
                 exp_args.pop("self", None)
                 if "include_args" in opts:
-                    exp_args = {k: exp_args[k] for k in opts["include_args"]}
+                    exp_args = {k: exp_args[k] for k in opts["include_args"] if k in exp_args}
                 if len(msgs) != 2:
                     viol.append(("message-count", dict(ctx, n=len(msgs))))
                     continue
@@ -364,6 +366,78 @@ def run_meta():
     want_args = {"x": 1, "y": 5, "rest": (6,), "k": 7}
     if len(outer_start) != 1 or {k: v for k, v in outer_start[0].items() if k in want_args or k in ("args", "kwargs")} != want_args:
         viol.append(("stacked-log_call:outer-start-fields", {"got": repr(outer_start)[:300]}))
+
+    # one decorator factory applied to several functions: each keeps its own
+    # identity, also when an earlier one is called again after a later decoration
+    for fopts in ({"include_result": False}, {"include_args": ["x"]}, {"action_type": "shared:type"}):
+        deco = log_call(**fopts)
+
+        def fa(x):
+            return ("fa", x)
+
+        def fb(x, y=3):
+            return ("fb", x, y)
+
+        class Kc(object):
+            def fc(self, x):
+                return ("fc", x)
+
+        ga = deco(fa)
+        gb = deco(fb)
+        gc = deco(Kc.fc)
+        kc = Kc()
+
+        def go3():
+            seen = world.capture()
+            rs = [ga(1), gb(2), gc(kc, 3), ga(4), gb(5, y=6)]
+            return rs, list(seen)
+
+        rs, msgs3 = world.run_isolated(go3)
+        if rs != [("fa", 1), ("fb", 2, 3), ("fc", 3), ("fa", 4), ("fb", 5, 6)]:
+            viol.append(("shared-factory:results", {"opts": repr(fopts), "got": repr(rs)}))
+        starts = [m for m in msgs3 if m.get("action_status") == "started"]
+        want_t = [fopts.get("action_type", "%s.%s" % (q.__module__, q.__qualname__)) for q in (fa, fb, Kc.fc, fa, fb)]
+        if [m.get("action_type") for m in starts] != want_t:
+            viol.append(("shared-factory:action-types", {"opts": repr(fopts), "got": [m.get("action_type") for m in starts], "want": want_t}))
+        want_f = [{"x": 1}, {"x": 2, "y": 3}, {"x": 3}, {"x": 4}, {"x": 5, "y": 6}]
+        if "include_args" in fopts:
+            want_f = [{"x": d["x"]} for d in want_f]
+        got_f = [{k: v for k, v in m.items() if k in ("x", "y", "self")} for m in starts]
+        if got_f != want_f:
+            viol.append(("shared-factory:start-fields", {"opts": repr(fopts), "got": repr(got_f)}))
+
+    # the default logger in force at the time of the *call* receives the action
+    from eliot import MemoryLogger
+    from eliot.testing import swap_logger
+
+    def early(x):
+        return x + 1
+
+    g_early = log_call(early)
+
+    def go4():
+        seen = world.capture()
+        out = []
+        g_early(1)
+        out.append(("default", len(seen), None))
+        ml = MemoryLogger()
+        prev = swap_logger(ml)
+        try:
+            g_late = log_call(action_type="late")(early)
+            g_early(2)
+            g_late(3)
+        finally:
+            swap_logger(prev)
+        out.append(("swapped", len(seen), len(ml.messages)))
+        g_early(4)
+        g_late(5)
+        out.append(("restored", len(seen), len(ml.messages)))
+        return out
+
+    got4 = world.run_isolated(go4)
+    want4 = [("default", 2, None), ("swapped", 2, 4), ("restored", 6, 4)]
+    if got4 != want4:
+        viol.append(("logger-not-resolved-at-call-time", {"got": repr(got4), "want": repr(want4)}))
 
     class K(object):
         @log_call
